@@ -25,7 +25,7 @@ def tc(rng):
                     Rule([Head('path', [V('x'), V('z')])], [Clause('edge', [AVar('x'), AVar('y')]), Clause('path', [AVar('y'), AVar('z')])])])
 
     def inputs(rng):
-        n = rng.choice([4, 8, 14, 24])
+        n = rng.choice([4, 8, 14, 24, 60])
         kind = rng.choice(['chain', 'cycle', 'random', 'random'])
         if kind == 'chain':
             e = [(i, i + 1) for i in range(n)]
